@@ -303,7 +303,15 @@ def writes_reach_the_tensor(ctx: Ctx, gens):
                     continue
                 inner = t.value.slice
                 parts = inner.elts if isinstance(inner, ast.Tuple) else [inner]
-                adv = [ast.unparse(x)[:40] for x in parts if isinstance(x, (ast.Compare, ast.Subscript)) or (isinstance(x, ast.UnaryOp) and isinstance(x.op, ast.Invert))]
+                def _tensor_valued(x):
+                    # a comparison, an inversion, or a subscript that itself takes a slice (a sub-tensor); `idx[i]` may be a plain int
+                    if isinstance(x, ast.Compare) or (isinstance(x, ast.UnaryOp) and isinstance(x.op, ast.Invert)):
+                        return True
+                    if isinstance(x, ast.Subscript):
+                        sl_ = x.slice.elts if isinstance(x.slice, ast.Tuple) else [x.slice]
+                        return any(isinstance(y, ast.Slice) for y in sl_)
+                    return False
+                adv = [ast.unparse(x)[:40] for x in parts if _tensor_valued(x)]
                 if adv:
                     ctx.ob("C18.t", f"{rel}:{st.lineno}:write-reaches-the-tensor", False, f"{rel}:{st.lineno}",
                            f"`{ast.unparse(t)[:70]} = ...`: the inner index {adv[0]} is an advanced index, `{ast.unparse(t.value)[:50]}` is a copy and the assignment is lost",
